@@ -76,6 +76,8 @@ def build_models(sig, names, extra_meta=None):
                                        for c in ms['cons']]
             if ms.get('comment'):
                 meta['db_table_comment'] = ms['comment']
+            if ms.get('it'):
+                meta['index_together'] = [tuple(names.field(x) for x in t) for t in ms['it']]
             if extra_meta and mn in extra_meta:
                 meta.update(extra_meta[mn])
             attrs = {'__module__': app + '.models',
